@@ -118,6 +118,9 @@ def analyse_unit(unit, extra):
         else:
             inst("R-C13-homogeneous", "violation", fn, text, line, "%s: %s" % (kind, detail), file=file)
     inst("R-C13-homogeneous", "ok", "*", "%d expression nodes typed, %d definite inhomogeneities" % (T.nodes, len(seen)), 0)
+    # highest length degree reached by any intermediate value, per entry point (read by R-C15-headroom)
+    for top, (dl, ds, text, line, file, inner) in sorted(T.peak.items()):
+        out.append(("PEAK", "data", file, "%s:%s" % (unit.name, top), text, line, (str(dl), str(ds), inner, bool(meta.get("single", True)))))
     return out
 
 
